@@ -680,6 +680,11 @@ def helper_codec_faithful(ctx):
                 out.append(ctx.err(spec, "`%s` not recognised as int.from_bytes(%s, %r)" % (ast.unparse(v), ps[0], order), r, mod))
     if len(out) < 4:
         raise AnalysisError("helper codecs: fewer than four return statements found")
+    # int_to_byte: exactly the byte range
+    spec = "helper:int_to_byte"
+    if ctx.repo.has_func(spec):
+        mod, fn = rl.get(ctx, spec)
+        out += rl.accept_set(ctx, spec, [param_names(fn)[0]], ISet.range(0, 255), targets="returns", prefer=(255, 256, -1, 0), exact=True)
     return out
 
 
